@@ -848,6 +848,59 @@ def stage_oracle_nested(rep, rng, n):
     return bad
 
 
+# ----------------------------------------------------------------------------- environment values
+ENV_VALUES = ['/opt/lib:~/lib', 'a~b:~', 'x=~/y', '~', '~/x', ':~', '=~', 'a:~root', '~:~', '~root', 'a=~', ':~:', 'a:~/b:~/c', '~+', '~-',
+              'a b', "it's", '$HOME', '${HOME}', 'x#y', '#', 'a;b', 'a&&b', '*', '?', '[a]', '{a,b}', '`id`', '$(id)', '\\', 'a\\', '"q"',
+              '', ' ', '\t', 'é', 'a\xa0b', '-n', 'A=1', '%d', "'", "''", '!', '^', '|', '<x', '>x', 'a,b', '(x)', '@', '+']
+
+
+def env_value(rng, rep=None):
+    k = rng.random()
+    if k < 0.3:
+        return rng.choice(ENV_VALUES)
+    if k < 0.65:      # rich in the characters sh treats specially inside assignment words
+        return ''.join(rng.choice('~~::==/ab.') for _ in range(rng.randint(1, 7)))
+    return gen.arg_string(rng, rep, maxlen=8)
+
+
+def stage_oracle_env(rep, rng, n):
+    """Direct check on the implementation, environment values: the real pshell.global_env (export NAME=value && cmd) and
+    pshell.local_env (NAME=value cmd) written as a recipe by the real Makefile writer, run by the real make + /bin/sh;
+    the recorder reports the environment the process sees. HOME is a private value, so a tilde that sh expands (at the
+    start of the value, after an unquoted colon or equals sign) is visible."""
+    from io import StringIO
+    from bfg9000.backends.make.syntax import Makefile
+    from bfg9000.shell import posix as pshell
+    bad = 0
+    home = '/var/tmp/c01-private-home'
+    cases = [{'VAR': v} for v in ENV_VALUES]
+    while len(cases) < n:
+        e = {'VAR': env_value(rng, rep)}
+        if rng.random() < 0.4:
+            e['PATH_2'] = env_value(rng, rep)
+        cases.append(e)
+    for envd in cases:
+        if any(c in v for v in envd.values() for c in '\n\r\0'):
+            continue
+        for form in ('global_env', 'local_env'):
+            mk = Makefile('build.bfg')
+            cmd = [shtools.ARGVREC, 'x y']
+            recipe = pshell.global_env(envd, [cmd]) if form == 'global_env' else pshell.local_env(envd, cmd)
+            mk.rule('all', recipe=[recipe], phony=True)
+            o = StringIO()
+            mk.write(o)
+            rc, recs, out = shtools.make_run(o.getvalue(), 'all', envnames=tuple(envd), extra_env={'HOME': home})
+            got = {k: recs[0]['env'].get(k) for k in envd} if rc == 0 and len(recs) == 1 and recs[0]['argv'] == ['x y'] else None
+            rep.case('env:%s:%r' % (form, envd), any(nontrivial(v) for v in envd.values()))
+            rep.count('channel:env:' + form)
+            if got != envd:
+                if rep.fail('Make backend, %s: environment %r is delivered as %r' % (form, envd, got),
+                            {'channel': 'env', 'form': form, 'env': envd, 'delivered': got, 'makefile': o.getvalue(), 'make_output': out[-300:]}):
+                    bad += 1
+    rep.stage('oracle:environment values->make->sh', cases=len(cases) * 2, failures=bad)
+    return bad
+
+
 def run(rep):
     rng = random.Random(rep.seed)
     thorough = rep.tier == 'thorough'
@@ -864,6 +917,7 @@ def run(rep):
     found += stage_oracle_make(rep, rng, (400 if thorough else 60) * (5 if dis else 1))
     found += stage_oracle_call(rep, rng, (400 if thorough else 70) * (5 if dis else 1))
     found += stage_oracle_nested(rep, rng, (300 if thorough else 50) * (5 if dis else 1))
+    found += stage_oracle_env(rep, rng, (300 if thorough else 90) * (5 if dis else 1))
     found += stage_oracle_cmdword(rep)
     from . import c06
     for i in range(12 if thorough else 2):
